@@ -85,6 +85,10 @@ func mExtraTrafBox(kind, nsamples int) mp4.Box {
 		return asBox(unknownUUIDBytes(3))
 	case 7:
 		return asBox(largeBoxBytes("lzer", nil)) // 16-byte header, empty payload
+	case 9: // sample auxiliary information of another kind (aux_info_type "test") in a CLEAR track: not protection signalling
+		return asBox(fullBoxBytes("saiz", 0, 1, []byte("test"), u32(0), []byte{3}, u32(uint32(nsamples))))
+	case 10:
+		return asBox(fullBoxBytes("saio", 0, 1, []byte("test"), u32(0), u32(1), u32(77)))
 	}
 	return asBox(boxBytes("free", []byte{9, 9, 9}))
 }
@@ -153,6 +157,9 @@ func genMulti(e *env, r *hx.Rng) mSpec {
 		ne := r.Pick(0, 0, 1, 2, 3)
 		for j := 0; j < ne; j++ {
 			t.extras = append(t.extras, r.Intn(9))
+		}
+		if t.scheme == "" && r.Bool() {
+			t.extras = append(t.extras, 9, 10) // a clear track may carry saiz / saio of its own: DecryptFragment must leave them
 		}
 		for j := 0; j < 3; j++ {
 			t.protPlace = append(t.protPlace, r.Intn(8))
@@ -461,7 +468,10 @@ func xmoofString(t *idTable, f *mp4.Fragment, init *mp4.InitSegment, withSenc bo
 			var fss []mp4.FullSample
 			err := fmt.Errorf("no trex")
 			if trex != nil {
-				fss, err = f.GetFullSamples(trex)
+				if p := hx.Try(func() { fss, err = f.GetFullSamples(trex) }); p != "" {
+					err = fmt.Errorf("panic")
+					data = "panic"
+				}
 			}
 			if err == nil {
 				l := make([][]byte, len(fss))
@@ -597,4 +607,84 @@ func damageMulti(r *hx.Rng, raw []byte, initLen int) []byte {
 		copy(out[initLen+idx:], rep)
 	}
 	return out
+}
+
+// ---------------------------------------------------------------- search: the property on multi-track fragments
+
+// searchMulti: protected multi-track / multi-trun fragment -> decode -> DecryptInit + DecryptFragment -> encode
+// (Fragment.Encode, as MediaSegment.Encode does) must give the clear reference fragment byte for byte; every trun of
+// every traf must address the clear bytes of its own samples; every non-protection box stays.
+func searchMulti(e *env, r *hx.Rng, n int) {
+	for i := 0; i < n; i++ {
+		s := genMulti(e, r)
+		for ti := range s.tracks {
+			s.tracks[ti].fragID = 0
+		}
+		b := e.buildMulti(s)
+		if b.class != "ok" {
+			continue
+		}
+		evals++
+		wit := s.String()
+		rn := runMulti(b, s.key, false)
+		if rn.class != "ok" {
+			fail("mp4.DecryptFragment", "multi-"+rn.class, wit, "a protected fragment with several trafs / truns (each track protected by InitProtect + EncryptFragment, assembled into one moof) is not decrypted")
+			continue
+		}
+		f := rn.frag
+		// 1. the data offsets right after DecryptFragment (a fragment with several truns keeps them on Encode)
+		bad := ""
+		for _, traf := range f.Moof.Trafs {
+			want := b.clearOff[traf.Tfhd.TrackID]
+			for j, tr := range traf.Truns {
+				if j >= len(want) || tr.DataOffset != want[j] {
+					bad = fmt.Sprintf("track %d trun %d: data offset %d, clear layout %v", traf.Tfhd.TrackID, j, tr.DataOffset, want)
+				}
+			}
+		}
+		if bad != "" {
+			fail("mp4.DecryptFragment", "multi-data-offset", wit, "after DecryptFragment a trun does not address its samples any more: "+bad)
+			continue
+		}
+		// 2. sample bytes of every track, read through the library
+		for _, t := range s.tracks {
+			var fss []mp4.FullSample
+			var err error
+			if p := hx.Try(func() { fss, err = f.GetFullSamples(trexOf(rn.dec.Init, t.trackID)) }); p != "" {
+				err = fmt.Errorf("panic")
+			}
+			ok := err == nil && len(fss) == len(t.samples)
+			for j := 0; ok && j < len(fss); j++ {
+				ok = bytes.Equal(fss[j].Data, t.samples[j])
+			}
+			if !ok {
+				bad = fmt.Sprintf("track %d", t.trackID)
+			}
+		}
+		if bad != "" {
+			fail("mp4.DecryptFragment", "multi-sample-bytes", wit, "decrypted samples differ from the clear ones: "+bad)
+			continue
+		}
+		// 3. the encoded fragment = the clear reference
+		var buf bytes.Buffer
+		var err error
+		if p := hx.Try(func() { err = f.Encode(&buf) }); p != "" || err != nil {
+			fail("mp4.Fragment.Encode", "multi-encode-"+classOf(p, err), wit, "the decrypted fragment does not encode")
+			continue
+		}
+		got := buf.Bytes()
+		want := b.clearRaw[s.start:]
+		if len(got) >= len(want) {
+			got = got[len(got)-len(want):]
+		}
+		if !bytes.Equal(got, want) {
+			lists := compareChildLists(b.clearRaw, buf.Bytes())
+			class, desc := "multi-bytes-differ", "decrypted fragment differs from the clear fragment assembled the same way"
+			for _, k := range sortedKeys(lists) {
+				class, desc = "multi-"+k+"-children", "child boxes differ: "+lists[k]
+				break
+			}
+			fail("mp4.DecryptFragment", class, wit, desc+fmt.Sprintf(" (clear %s, decrypted %s)", trunc(hx.Hex(want), 300), trunc(hx.Hex(buf.Bytes()), 300)))
+		}
+	}
 }
